@@ -590,8 +590,10 @@ pub fn inverse_structured<S: Dom>(t: &mut Tape, cx: &mut Cx) -> CaseResult {
     let binv = rf::inverse(&b).expect("non-singular");
     let (m, w) = (rat_max(&b), rat_max(&binv));
     // a-priori bound of any adjugate/cofactor evaluation: |d adj| <= c eps m^3, |d det| <= c eps m^4
+    // (worst case constant ~ 650 for a dense matrix with all |entries| = m; 256 is still 500 times the largest error
+    // observed on the unchanged tree)
     let amp = m.powi(3) / d.to_f64_lossy().abs() * (1.0 + m * w);
-    let k = 1024.0;
+    let k = 256.0;
     let mut zeros = 0;
     for i in 0..3 {
         for j in 0..3 {
@@ -671,7 +673,7 @@ fn scale_exp_range<S: Dom>() -> (i64, i64) {
     match S::NAME {
         "f32" => (-11, 20),
         "f64" => (-25, 40),
-        _ => (-25, 20),
+        _ => (-25, 30),
     }
 }
 
@@ -750,7 +752,7 @@ fn transl_regime<S: Dom>(t: &mut Tape) -> ([Rat; 3], i32, &'static str) {
     let ktmax = match S::NAME {
         "f32" => 24,
         "f64" => 100,
-        _ => 16,
+        _ => 56,
     };
     if t.chance(32) {
         return ([Rat::ZERO; 3], 0, "zero translation");
@@ -840,8 +842,8 @@ fn fast_inverse_wide<S: Dom>(t: &mut Tape, cx: &mut Cx, rigid: bool) -> CaseResu
     let tr_scale = tmax / mmin;
     let prod_scale = (mmax / mmin) * tmax.max(1.0);
     // column_i / |column_i|^2 and -(row . t): <= ~10 roundings per entry on top of the two roundings of each base entry;
-    // 256 keeps two orders of magnitude above the largest error observed (3 eps) and ten below an O(1) defect
-    let k = 256.0;
+    // 512 keeps two orders of magnitude above the largest error observed (3 eps) and three or more below an O(1) defect
+    let k = 512.0;
     let id: M4<S> = rf::identity();
     let (r, c) = (rm::Mat4::<S>::from_arr(&ms), cm::Mat4::<S>::from_arr(&ms));
 
@@ -882,7 +884,7 @@ fn fast_inverse_wide<S: Dom>(t: &mut Tape, cx: &mut Cx, rigid: bool) -> CaseResu
     c2.invert_affine_transform();
     check_eq!(cx, c2.to_arr(), c.inverted_affine_transform().to_arr(), "col-major invert_affine_transform() == returning form");
     if general_ok {
-        let kg = 1024.0;
+        let kg = 256.0;
         check_mat!(cx, S, sc.unscale_inverse(&r.inverted().to_arr()), w0, amp, kg, "row-major inverted() on a {} matrix agrees with the exact / fast inverse", if rigid { "rigid" } else { "T*R*S" });
         check_mat!(cx, S, sc.unscale_inverse(&c.inverted().to_arr()), w0, amp, kg, "col-major inverted() on a {} matrix agrees with the exact / fast inverse", if rigid { "rigid" } else { "T*R*S" });
     }
@@ -1154,8 +1156,9 @@ macro_rules! det_wide_case {
             cx.set_nontrivial(zeros < N * N - N && b != rf::transpose(&b));
             let want = rat_to::<S>(db) * p2::<S>(e);
             sample!(cx, "{} n={} {} base={:?} row exps={:?} col exps={:?} det(base)={:?} A={:?}", S::NAME, N, label, b, r, c, db, a);
-            // every evaluation of the Leibniz expansion has an error <= (N + N! - 1) eps * sum_perm prod |a|
-            let tol = 64.0 * S::eps() * perm_abs(&af);
+            // every evaluation of the Leibniz expansion has an error <= (N + N! - 1) eps * sum_perm prod |a| (<= 27 eps * ..);
+            // 128 is two orders of magnitude above the largest error observed (0.8 eps * ..)
+            let tol = 128.0 * S::eps() * perm_abs(&af);
             let (ra, ca) = (rm::$Mat::<S>::from_arr(&a), cm::$Mat::<S>::from_arr(&a));
             near::<S>(cx, ra.determinant(), want, tol, "row-major determinant vs the exact determinant scaled by 2^(sum of exponents)", label)?;
             near::<S>(cx, ca.determinant(), want, tol, "col-major determinant vs the exact determinant scaled by 2^(sum of exponents)", label)?;
@@ -1189,8 +1192,8 @@ macro_rules! det_wide_case {
                 }
             }
             let want2 = rat_to::<S>(db * d2) * p2::<S>(e);
-            let tol_ab = 64.0 * S::eps() * perm_abs(&rf::matmul(&abs_a, &f2));
-            let tol_ba = 64.0 * S::eps() * perm_abs(&rf::matmul(&f2, &abs_a));
+            let tol_ab = 128.0 * S::eps() * perm_abs(&rf::matmul(&abs_a, &f2));
+            let tol_ba = 128.0 * S::eps() * perm_abs(&rf::matmul(&f2, &abs_a));
             let (rb, cb) = (rm::$Mat::<S>::from_arr(&s2), cm::$Mat::<S>::from_arr(&s2));
             near::<S>(cx, (ra * rb).determinant(), want2, tol_ab, "row-major det(A B) = det A det B", label)?;
             near::<S>(cx, (cb * ca).determinant(), want2, tol_ba, "col-major det(B A) = det B det A", label)?;
